@@ -122,6 +122,13 @@ class VC:
                 kws.update(dstar)
         if star is None:
             return f(*pos, **kws)
+        if isinstance(star, Sym):
+            from . import lib
+
+            if f is lib.vc_chain and not pos:
+                return lib.vc_chain_star(star)
+            if getattr(f, "__name__", "") == "union" and isinstance(getattr(f, "__self__", None), sym.SSet) and not pos:
+                return lib.union_all(f.__self__, star)
         if getattr(f, "_vc_star", False):
             return f(*pos, star, **kws)
         if isinstance(star, Sym):
@@ -237,6 +244,9 @@ _BUILTIN_OVERRIDES = {
     "bool": sym.vc_bool,
     "isinstance": sym.vc_isinstance,
     "enumerate": sym.vc_enumerate,
+    "any": sym.vc_any,
+    "all": sym.vc_all,
+    "sum": sym.vc_sum,
     "tuple": sym.vc_tuple,
 }
 
